@@ -12,7 +12,7 @@ use serde::{Deserialize, Serialize};
 pub fn def() -> PropDef {
     PropDef {
         id: "C06",
-        rule: "generated call sequences on every codec family x engine, encoder and decoder, and one-shot calls; arguments from pools that include 0, 1, 2^a+-1, 65535..65537, 2^32+-1, usize::MAX-1, usize::MAX and random values for counts and indexes, and 0/1/odd/huge for sizes and shard lengths; object states reached by generated prefixes (valid adds, failing adds, resets). oracle: executable model of the documented preconditions giving the set V of truthful errors per call: V empty => Ok; V non-empty => Err(e) with e in V; any unwind is a violation. Even sizes > 4096 are only generated together with unsupported counts (allocation failure is outside the property). part after_reset_streaks: objects that went through streaks of up to 300 consecutive resets (see C05 reset_streaks) must accept every valid call of a complete round (V empty => Ok). non-trivial: call with V non-empty on an object that already holds >=1 shard, or >=2 simultaneous violations, or an argument >= 2^32; distinct by full case",
+        rule: "generated call sequences on every codec family x engine, encoder and decoder, and one-shot calls; arguments from pools that include 0, 1, 2^a+-1, 65535..65537, 2^32+-1, usize::MAX-1, usize::MAX and random values for counts and indexes, and 0/1/odd/huge for sizes and shard lengths; object states reached by generated prefixes (valid adds, failing adds, resets). oracle: executable model of the documented preconditions giving the set V of truthful errors per call: V empty => Ok; V non-empty => Err(e) with e in V; any unwind is a violation. Even sizes > 4096 are only passed to allocating calls together with unsupported counts (allocation failure is outside the property); validate(), which allocates nothing, gets every size of the pool with supported counts too. part after_reset_streaks: objects that went through streaks of up to 300 consecutive resets (see C05 reset_streaks) must accept every valid call of a complete round (V empty => Ok). non-trivial: call with V non-empty on an object that already holds >=1 shard, or >=2 simultaneous violations, or an argument >= 2^32; distinct by full case",
         assumptions: &[
             "built with overflow checks and debug assertions on (the arithmetic of a dev build); thorough repeats the cases in a second build with wrapping arithmetic",
             "NotEnoughShards / TooFewOriginalShards counts are accepted anywhere between the number of usable and the number of given shards for one-shot calls",
@@ -51,7 +51,7 @@ pub fn size_pool() -> BoxedStrategy<usize> {
         6 => prop_oneof![Just(2usize), Just(4), Just(62), Just(64), Just(66), Just(128), Just(130)],
         2 => (1usize..=200).prop_map(|h| h * 2),
         2 => prop_oneof![Just(0usize), Just(1), Just(3), Just(63), Just(65), Just(127)],
-        1 => prop_oneof![Just(usize::MAX), Just(usize::MAX - 1), Just(1usize << 40), Just((1usize << 40) + 1), Just(1usize << 63), Just(100_001usize)],
+        1 => prop_oneof![Just(usize::MAX), Just(usize::MAX - 1), Just(usize::MAX - 61), Just(usize::MAX - 63), Just(usize::MAX - 127), Just(1usize << 40), Just((1usize << 40) + 1), Just(1usize << 63), Just((1usize << 63) + 2), Just((1usize << 32) - 2), Just(100_001usize)],
     ]
     .boxed()
 }
@@ -353,6 +353,9 @@ pub struct StaticCase {
     pub k: usize,
     pub r: usize,
     pub b: usize,
+    /// shard size for the calls that never allocate (validate): the generated value, not bounded on the Ok side
+    #[serde(default)]
+    pub b_raw: Option<usize>,
 }
 
 fn static_strategy(_t: Tier) -> BoxedStrategy<StaticCase> {
@@ -365,7 +368,7 @@ fn static_strategy(_t: Tier) -> BoxedStrategy<StaticCase> {
                 count_pool(),
                 size_pool(),
             )
-                .prop_map(move |(eng, layer, k, r, b)| StaticCase { kind, eng, layer, k, r, b: tame(kind, k, r, b) })
+                .prop_map(move |(eng, layer, k, r, b)| StaticCase { kind, eng, layer, k, r, b: tame(kind, k, r, b), b_raw: Some(b) })
         })
         .boxed()
 }
@@ -374,10 +377,13 @@ fn check_static(c: &StaticCase, st: &mut Stats) -> CheckResult {
     let want = c.kind.env(c.k, c.r);
     let got = no_panic(|| supports(c.kind, c.eng, c.layer, c.k, c.r)).map_err(|p| format!("supports({}, {}) {p}", c.k, c.r))?;
     ensure!(got == want, "{} {:?}::supports({}, {}) = {got}, documented envelope says {want}", c.kind.name(), c.layer, c.k, c.r);
-    let truth = truth_config(c.kind, c.k, c.r, c.b);
-    if let Some(res) = no_panic(|| validate(c.kind, c.eng, c.layer, c.k, c.r, c.b)).map_err(|p| format!("validate({}, {}, {}) {p}", c.k, c.r, c.b))? {
-        judge(&format!("{} {:?}::validate({}, {}, {})", c.kind.name(), c.layer, c.k, c.r, c.b), &res, &truth)?;
+    // validate() allocates nothing: any shard size, however large (even sizes up to usize::MAX - 1 are valid)
+    let bv = c.b_raw.unwrap_or(c.b);
+    let truth_v = truth_config(c.kind, c.k, c.r, bv);
+    if let Some(res) = no_panic(|| validate(c.kind, c.eng, c.layer, c.k, c.r, bv)).map_err(|p| format!("validate({}, {}, {}) {p}", c.k, c.r, bv))? {
+        judge(&format!("{} {:?}::validate({}, {}, {})", c.kind.name(), c.layer, c.k, c.r, bv), &res, &truth_v)?;
     }
+    let truth = truth_config(c.kind, c.k, c.r, c.b);
     // constructors through the Rate trait (cheap configurations only on the Ok side)
     if !truth.is_empty() || c.k + c.r <= 4096 {
         if let Some(res) = no_panic(|| rate_encoder_ok(c.kind, c.eng, c.k, c.r, c.b)).map_err(|p| format!("Rate::encoder({}, {}, {}) {p}", c.k, c.r, c.b))? {
@@ -389,7 +395,8 @@ fn check_static(c: &StaticCase, st: &mut Stats) -> CheckResult {
     }
     st.classf("kind", c.kind.name());
     st.classf("violations", truth.len());
-    if truth.len() >= 2 || c.k >= 1 << 32 || c.r >= 1 << 32 || c.b >= 1 << 32 {
+    st.classf("validate_ok_with_size_ge_2^32", truth_v.is_empty() && bv >= 1 << 32);
+    if truth.len() >= 2 || c.k >= 1 << 32 || c.r >= 1 << 32 || c.b >= 1 << 32 || bv >= 1 << 32 {
         st.nontrivial_case("static", c);
     }
     Ok(())
